@@ -1,6 +1,9 @@
 package ratelimiter
 
-import "time"
+import (
+	"sync"
+	"time"
+)
 
 // ---------------------------------------------------------------------------
 // C09 harnesses, package ratelimiter. Reference = the specification arithmetic
@@ -301,4 +304,46 @@ func verifC09_StepN() {
 		verifAssert(int64(rl.tokens) == k && int64(rl.cycle) == c, "rejection-leaves-the-state-unchanged")
 		verifCover("rejected")
 	}
+}
+
+// verifC09_Conc: concurrent acquirers while the clock moves on. There are fewer requests than
+// limitForPeriod, so whatever the order in which they reach the limiter and whatever period
+// each of them falls into, every request finds a spare permit in its period: all are permitted
+// without any wait. (Time is read by the limiter through nowFunc; the harness clock jumps by
+// whole and partial periods at arbitrary moments between the callers' steps.)
+func verifC09_Conc() {
+	per := int64(10)
+	timeouts := []int64{0, 5, 50}
+	n := verifBound("threads")
+	p := &Policy{LimitForPeriod: n + verifChoose("sparePermits", 2), LimitRefreshPeriod: time.Duration(per), TimeoutDuration: time.Duration(timeouts[verifChoose("timeout", 3)])}
+	vMono = verifInt("t0", 0, 25)
+	nowFunc = vNow
+	rl := New(p)
+	verifRaceScope(rl, "RateLimiter")
+	var wg sync.WaitGroup
+	var ok [4]bool
+	var wait [4]time.Duration
+	for i := 0; i < n; i++ {
+		wg.Add(1)
+		i := i
+		go func() {
+			defer wg.Done()
+			ok[i], wait[i] = rl.AcquirePermission()
+		}()
+	}
+	// the clock: moves on twice, at any moment
+	wg.Add(1)
+	go func() {
+		defer wg.Done()
+		steps := []int64{1, 9, 10, 25}
+		vMono += steps[verifChoose("clockStep1", 4)]
+		verifYield()
+		vMono += steps[verifChoose("clockStep2", 4)]
+	}()
+	wg.Wait()
+	for i := 0; i < n; i++ {
+		verifAssert(ok[i], "fewer-requests-than-the-limit-are-all-permitted")
+		verifAssert(wait[i] == 0, "a-request-arriving-while-its-period-has-spare-permits-proceeds-immediately")
+	}
+	verifCover("done")
 }
